@@ -863,7 +863,7 @@ def _entry_index_in_opener(u, fn, pparam, opener, by_value):
                         shift += moves[m]
                     if ok:
                         facts.append((i_ - shift, ch))
-            j_ok = [j for j in range(0, len(opener)) if all(0 <= j + i_ < len(opener) and ord(opener[j + i_]) == ch for (i_, ch) in facts)]
+            j_ok = [j for j in range(0, len(opener) + 1) if all(0 <= j + i_ < len(opener) and ord(opener[j + i_]) == ch for (i_, ch) in facts)]
             j = min(j_ok) if (facts and j_ok) else 0
             best = j if best is None else min(best, j)
     return best or 0
